@@ -112,6 +112,8 @@ class _Open(Entry):
     def _side(self, have, want):
         return want <= have
 
+THOROUGH_MAIN_CONFIGS = ['b248s6', 'nostd']
+
 
 def run(ctx, rep):
     db = ctx.main
